@@ -486,7 +486,8 @@ def check_case(ctx, case):
 # ------------------------------------------------------------------ exhaustive bounded histories
 def bounded(ctx):
     lit = lambda t: ['lit', t]   # noqa
-    uni = [[lit('/a/b')], [lit('/a/bc')], [lit('/a/'), ['w', 'x', None, None]], [lit('/a/'), ['w', 'x', None, None], lit('/c')], [lit('/ab')]]
+    uni = [[lit('/a/b')], [lit('/a/bc')], [lit('/a/'), ['w', 'x', None, None]], [lit('/a/'), ['w', 'x', None, None], lit('/c')], [lit('/ab')],
+           [lit('/a/'), ['w', 'y', None, None]]]          # (the pattern of rule 2 under another wildcard name)
     hookable = [[lit('/a/')], [lit('/a/b')], [lit('/')], [lit('/a/'), ['w', 'x', None, None]], [lit('/a')]]
     alphabet = [
         {'op': 'add', 'rule': 0, 'methods': ['GET'], 'name': 'n1', 'overwrite': False, 'choice': []},
@@ -495,6 +496,7 @@ def bounded(ctx):
         {'op': 'add', 'rule': 3, 'methods': ['POST'], 'name': 'n2', 'overwrite': True, 'choice': []},
         {'op': 'add', 'rule': 4, 'methods': ['GET'], 'name': None, 'overwrite': False, 'choice': []},
         {'op': 'add', 'rule': 0, 'methods': ['GET'], 'name': None, 'overwrite': False, 'choice': [], 'mspell': 1},       # the verb in lower case
+        {'op': 'add', 'rule': 5, 'methods': ['GET'], 'name': None, 'overwrite': True, 'choice': []},                     # overwrite through a rule that renames the wildcard
         {'op': 'remove', 'rule': 0, 'choice': []},
         {'op': 'remove', 'rule': 2, 'choice': []},
         {'op': 'remove_name', 'name': 'n1'},
